@@ -1234,7 +1234,19 @@ impl<'a> Sc<'a> {
                                         if p != t && !st.exited[p] {
                                             let ppc = st.pc[p] as usize;
                                             let pops = &self.prog.threads[p];
-                                            let yielded = ppc >= 1 && matches!(pops[ppc - 1], Op::Yield);
+                                            // a switch after `yield_now` is voluntary; the yield stays
+                                            // outstanding while no other thread has run since (a thread
+                                            // that yields when nobody else can run goes on, and loom
+                                            // switches away from it at the next opportunity)
+                                            let mut yielded = false;
+                                            let mut q = pos;
+                                            while q > 0 && log[q - 1].0 as usize == p {
+                                                if matches!(pops[log[q - 1].1 as usize], Op::Yield) {
+                                                    yielded = true;
+                                                    break;
+                                                }
+                                                q -= 1;
+                                            }
                                             // a switch inside `yield_now` is voluntary
                                             let yielding = ppc < pops.len() && matches!(pops[ppc], Op::Yield);
                                             if ppc < pops.len() && !yielded && !yielding {
